@@ -129,6 +129,10 @@ class DefGen:
         if int_fields:
             f = rng.choice(int_fields)
             forms += [f"{f} & 3", f"({f} & 1) + 1", f"{f} % 3", f"({f} & 3) * 2 - 1", f"{f}&1|2", f"~{f} & 2", f"({f} >> 1) & 3"]
+            if rng.random() < 0.25:
+                # lengths that cannot be evaluated for some field values (division by zero with operands pending):
+                # such a parse fails half-way and must leave nothing behind
+                forms += [f"2 + 4 / ({f} & 3)", f"1 + 3 % ({f} & 3)", f"(2 | 1) * 6 / ({f} & 3)"] * 3
             if len(int_fields) > 1:
                 g = rng.choice(int_fields)
                 forms += [f"({f} & 1) + ({g} & 1)", f"{f} & {g} & 3"]
